@@ -25,6 +25,9 @@ CHECKS = {
  "C09": ("engine-b", "model_checking", B,
          "every design of the F_hier family is uniquified and flattened; the flattened top definition is read directly and compared with the independent elaboration of the original: one leaf per leaf path named by the slash-joined path, same leaf definition and data, no hierarchical instance left, identical partition of leaf pin bits and top port bits, well-formedness",
          "bounded as C08; instance data compared apart from .NAME/EDIF.identifier which flattening rewrites"),
+ "C12": ("engine-b", "model_checking", B,
+         "for every design of the F_hier family every hierarchical wire, pin, cable and port occurrence (and every wire element over all its occurrences) is the start of get_hwires / get_hcables with selections ALL, INSIDE, OUTSIDE, BOTH and of get_hpins; result sets compared with the equivalence classes of an independent union-find elaboration",
+         "bounded as C08; the top instance is not itself instanced"),
 }
 m = {
  "version": 1,
